@@ -866,7 +866,17 @@ def standard_rules(ctx, R):
     r1_rights_semantic(ctx, R)
 
 
+def r9_game_plays_the_move_given(ctx):
+    """through the game API the successor is the one of the move handed in: Game::apply_chess_move applies exactly that move to the game's
+    board and records it (= C14.R2) - it does not rewrite it (e.g. replace the promotion piece by a configured one)"""
+    from . import c14
+    import_rules(ctx, 'C03.R9-game-plays-the-move-given', [c14.r2_accept_pairing],
+                 'a move made through the game must yield the successor of THAT move: the piece the pawn is promoted to is part of the move',
+                 floor=2)
+
+
 def run(ctx):
+    r9_game_plays_the_move_given(ctx)
     R = rights_consts(ctx)
     if R is None:
         return
